@@ -203,4 +203,115 @@ theorem C11_i64_foreign (s : Bytes) (h : ∃ b ∈ s, Foreign [43, 45] b) : ∃ 
       · simp at hns
       · simp [hbody b hb] at hnd
 
+/-! ### `to_f64` -/
+
+/-- **C11_f64_shape — the exact grammar of `to_f64`** (an iff, so nothing is hidden): a
+string converts exactly when it is `["-"] head` with the integer digits at most `2^53-1`,
+or `["-"] head "." f` with `1..=22` fraction digits and all digits fitting a `u64`; `head`
+is digits, or `+` then digits (possibly none), or — only in front of the point — nothing.
+See `F64Accepts` for the quirks (`"+"` → 0, `"-+5"` → -5, `".5"`, no `"1."`, …). -/
+theorem C11_f64_shape (s : Bytes) :
+    (∃ v, toF64 s = .ok v) ↔ ∃ neg ip fp, F64Accepts s neg ip fp := by
+  constructor
+  · rintro ⟨v, h⟩
+    obtain ⟨neg, ip, fp, ha, -⟩ := (toF64_ok_iff s v).1 h
+    exact ⟨neg, ip, fp, ha⟩
+  · rintro ⟨neg, ip, fp, ha⟩
+    exact ⟨_, (toF64_ok_iff s _).2 ⟨neg, ip, fp, ha, rfl⟩⟩
+
+/-- the same with the value: `val as f64` for integers, `sign * ((digits as f64) / 10^k)`
+(two roundings) for decimals. -/
+theorem C11_f64_value (s : Bytes) (v : Nat) :
+    toF64 s = .ok v ↔ ∃ neg ip fp, F64Accepts s neg ip fp ∧ v = f64Value neg ip fp :=
+  toF64_ok_iff s v
+
+-- "-+5" is accepted (sign quirk), "1." and "+-5" are not
+example : F64Accepts [45, 43, 53] true [53] none := ⟨[43, 53], ⟨by decide, Or.inr rfl⟩, rfl, by decide, by decide⟩
+example : toF64 [49, 46] = .error .overflow := by rfl
+example : toF64 [43, 45, 53] = .error .allDigits := by rfl
+-- ".5" = 0.5 = 0x3FE0000000000000
+example : toF64 [46, 53] = .ok 0x3FE0000000000000 := by rfl
+
+/-- **binary64 holds every integer below `2^53` exactly** (`n as f64` decodes back to `n`). -/
+theorem C11_u64ToF64_exact (n : Nat) (h : n < 2 ^ 53) : decodeMag (u64ToF64 n) = n :=
+  u64ToF64_exact n h
+
+example : decodeMag (u64ToF64 9007199254740991) = 9007199254740991 := by decide +kernel
+
+/-- **correctly rounded below `2^53`**: when the digits taken as one integer `N` are below
+`2^53` (and there are `k = |f| ≤ 22` fraction digits, which `F64Accepts` requires), the
+result is `sign · RNE(N / 10^k)` — one rounding of the exact quotient, since `N as f64`
+is exact and `10^k` is exact for `k ≤ 22`. -/
+theorem C11_f64_correctly_rounded (s : Bytes) (neg : Bool) (ip f : Bytes)
+    (ha : F64Accepts s neg ip (some f)) (hN : decVal (ip ++ f) < 2 ^ 53) :
+    toF64 s = .ok (signed neg (rneBits (decVal (ip ++ f)) (10 ^ f.length))) := by
+  rw [toF64_ok_iff]
+  refine ⟨neg, ip, some f, ha, ?_⟩
+  simp only [f64Value, fracVal, signed, u64ToF64_exact _ hN]
+
+example : F64Accepts [49, 46, 53] false [49] (some [53]) :=
+  ⟨[49], ⟨by decide, Or.inl rfl⟩, rfl, by decide, by decide, by decide, by decide⟩
+
+/-- **integers are exact or refused**: an accepted string without a decimal point is a plain
+integer `N ≤ 2^53 - 1`; the result is `± (N as f64)`, which represents `N` exactly. -/
+theorem C11_f64_integers_exact_or_refused (s : Bytes) (v : Nat) (hdot : 46 ∉ s) (h : toF64 s = .ok v) :
+    ∃ neg ip, F64Accepts s neg ip none ∧ decVal ip ≤ 2 ^ 53 - 1 ∧
+      v = (if neg then (if decVal ip = 0 then 0 else signBit + u64ToF64 (decVal ip)) else u64ToF64 (decVal ip)) ∧
+      decodeMag (u64ToF64 (decVal ip)) = decVal ip := by
+  obtain ⟨neg, ip, fp, ha, hv⟩ := (toF64_ok_iff s v).1 h
+  cases fp with
+  | some f => exact absurd (accepts_some_has_dot s neg ip f ha) hdot
+  | none =>
+    have hle : decVal ip ≤ 2 ^ 53 - 1 := by
+      obtain ⟨hd, -, -, -, hle⟩ := ha; exact hle
+    exact ⟨neg, ip, ha, hle, by simpa [f64Value, intVal] using hv, u64ToF64_exact _ (by omega)⟩
+
+/-- a plain integer rendering above `2^53 - 1` is refused (`PrecisionLoss`, or `Overflow`
+when it does not even fit the 64-bit accumulator / `i64`). -/
+theorem C11_f64_big_integer_refused (neg : Bool) (hd ip : Bytes) (hh : IsF64Head hd ip) (hne : hd ≠ [])
+    (hbig : decVal ip > 2 ^ 53 - 1) :
+    toF64 ((if neg then [45] else []) ++ hd) = .error .precisionLoss ∨
+    toF64 ((if neg then [45] else []) ++ hd) = .error .overflow :=
+  toF64_big_integer_refused neg hd ip hh hne hbig
+
+-- 2^53 = 9007199254740992 is refused although binary64 holds it: the guard is `> 2^53 - 1`
+example : toF64 [57,48,48,55,49,57,57,50,53,52,55,52,48,57,57,50] = .error .precisionLoss := by rfl
+
+/-
+C11_f64_finite, full statement (the fraction case is NOT proved yet, see the partial
+theorem below):
+
+  theorem C11_f64_finite (s : Bytes) (v : Nat) (h : toF64 s = .ok v) : expField v ≠ 2047
+
+Missing: a bound on the exponent field of `rneBits num den` for `num ≤ 2^65`, `1 ≤ den ≤ 10^22`
+(needs `q < 2^53` after normalisation in `rneBits`, i.e. the floor-division bounds on
+`scaleQ`).  The clause is covered for all generated inputs by the correspondence run and
+the harness oracle `f64-nonfinite`.
+
+C11_f64_two_ulp, full statement (NOT proved; growth theorem of DESIGN.md):
+
+  theorem C11_f64_two_ulp (s : Bytes) (neg : Bool) (ip f : Bytes)
+      (ha : F64Accepts s neg ip (some f)) (hN : 2 ^ 53 ≤ decVal (ip ++ f)) :
+      ∃ v, toF64 s = .ok v ∧
+        ulpDistance v (signed neg (rneBits (decVal (ip ++ f)) (10 ^ f.length))) ≤ 2
+
+covered by the correspondence run (the model computes the exact two-rounding result) and by
+the harness oracle `f64-beyond-2ulp` against Rust's correctly rounded `str::parse::<f64>`.
+-/
+
+/-- **never NaN or infinity — proved for strings without a decimal point**: the exponent
+field of an accepted integer is at most 1075 (|value| < 2^53), so it is never 2047. -/
+theorem C11_f64_finite_partial (s : Bytes) (v : Nat) (hdot : 46 ∉ s) (h : toF64 s = .ok v) :
+    expField v ≠ 2047 := by
+  obtain ⟨neg, ip, -, hle, hv, -⟩ := C11_f64_integers_exact_or_refused s v hdot h
+  have := expField_u64ToF64_small (decVal ip) (by omega)
+  subst hv
+  cases neg
+  · simp only [Bool.false_eq_true, if_false]; omega
+  · by_cases h0 : decVal ip = 0
+    · simp only [h0, if_true]; decide
+    · simp only [h0, if_false, if_true]; omega
+
+example : toF64 [45, 49, 50] = .ok 0xC028000000000000 := by rfl   -- "-12" = -12.0
+
 end Jomini.Props.C11
